@@ -1,21 +1,22 @@
 #!/bin/bash
 # Statement coverage of memefish by the quick checks (reported in DESIGN.md; decides nothing).
-# usage: lib/coverage.sh [IDs...]   -> /verif/COVERAGE.md
-cd /verif
+# usage: lib/coverage.sh [IDs...]   -> $V/COVERAGE.md
+cd "$(dirname "$0")/.."; V=$PWD; R=${VERIF_REPO:-${VP_RUN_REPO:-/repo}}; export VERIF_REPO=$R
 ids=${@:-C01 C02 C03 C04 C05 C06 C07 C08 C09 C10 C11 C12 C13 C14 C15 C16 C17 C18 C19 C20}
-dir=/verif/work/cover; rm -rf $dir; mkdir -p $dir
+dir=$V/work/cover; rm -rf $dir; mkdir -p $dir
 rm -f work/bin/mfverif*
 for i in $ids; do VERIF_COVER=$dir ./check $i quick > /dev/null 2> work/cover-$i.err; echo "$i exit=$?"; done
 rm -f work/bin/mfverif*     # the next check rebuilds without instrumentation
-(cd /repo && GOFLAGS=-mod=mod go tool covdata textfmt -i=$dir -o /verif/work/cover.txt)
-python3 - <<'PY' > /verif/COVERAGE.md
-import re, collections
+(cd $R && GOFLAGS=-mod=mod go tool covdata textfmt -i=$dir -o $V/work/cover.txt)
+V=$V R=$R python3 - <<'PY' > $V/COVERAGE.md
+import re, collections, os
+V = os.environ['V']; R = os.environ['R']
 tot = collections.Counter(); cov = collections.Counter(); unc = collections.defaultdict(list)
-for l in open('/verif/work/cover.txt'):
+for l in open(V + '/work/cover.txt'):
     m = re.match(r'(.*):(\d+)\.(\d+),(\d+)\.(\d+) (\d+) (\d+)', l)
     if not m: continue
     f, l1, c1, l2, c2, n, cnt = m.groups()
-    if 'memefish/' not in f: continue
+    if 'memefish/' not in f or 'mfverif' in f: continue
     f = f.split('memefish/')[-1]
     tot[f] += int(n)
     if int(cnt) > 0: cov[f] += int(n)
@@ -27,12 +28,12 @@ for f in sorted(tot):
 print("\n## Uncovered blocks\n")
 for f in sorted(unc):
     if f.startswith("verif_") or f.startswith("tools/"): continue
-    try: src = open('/repo/' + f).read().split('\n')
+    try: src = open(R + '/' + f).read().split('\n')
     except Exception: continue
     print("### %s\n" % f)
     for (a, b) in sorted(set(unc[f])):
         print("* %d-%d: `%s`" % (a, b, " ".join(x.strip() for x in src[a-1:b])[:140].replace('`', "'")))
     print()
 PY
-rm -rf $dir /verif/work/cover.txt
-head -25 /verif/COVERAGE.md
+rm -rf $dir $V/work/cover.txt
+head -25 $V/COVERAGE.md
